@@ -34,7 +34,11 @@ def dyndep_scenario(rng, sid, static=False, on_rule=False):
     g = gen.Gen(random.Random(rng.randint(0, 2 ** 60)), size=rng.randint(1, 4),
                 feat=dict(deps=0.3, phony=0.1, restat=0.2, generator=0.0, vals=0.1, rsp=0.0, chain=0.7, pools=0.2, dyndep=0.0))
     sc = g.scenario(sid)
-    return g.add_dyndep(sc, static=static, on_rule=on_rule)
+    sc = g.add_dyndep(sc, static=static, on_rule=on_rule)
+    if not static and rng.random() < 0.35:
+        # a second dyndep file whose statements may take what the first one's statements produce (two levels)
+        sc = g.add_dyndep(sc, static=False, on_rule=False, tag="e")
+    return sc
 
 
 def inlined_twin(sc):
@@ -141,6 +145,19 @@ def run_twins(ctx, rng, n):
                                 t["ver"] += 1
                     stepsD.append(manifest_step(curD)); stepsM.append(manifest_step(curM)); meta.append({"kind": "change"})
                     chg.append(("cmd", s["id"]))
+            if not static and rng.random() < 0.2:
+                # every dyndep file has to be regenerated (scanner configurations touched) while something that is known only
+                # from a dyndep file changes: what the first scan believes about the served statements is all provisional
+                for p in sorted(q for q in curD["sources"] if q.startswith("ddscan")):
+                    st = {"op": "touch", "path": p}
+                    stepsD.append(st); stepsM.append(st); meta.append({"kind": "change"}); chg.append(("touch", p))
+                leafs = sorted(q for q in curD["sources"] if q.startswith("m") and q.endswith(".h"))
+                if leafs:
+                    p = rng.choice(leafs)
+                    c = curD["sources"][p] + "// e%d\n" % rng.randint(0, 10 ** 6)
+                    curD["sources"][p] = c; curM["sources"][p] = c
+                    st = {"op": "write", "path": p, "content": c}
+                    stepsD.append(st); stepsM.append(st); meta.append({"kind": "change"}); chg.append(("edit", p))
             outs = [s["outs"][0] for s in curD["stmts"]]
             tg = [] if rng.random() < 0.5 else rng.sample(outs, rng.randint(1, min(3, len(outs))))
             b = {"op": "build", "targets": tg, "j": rng.choice((1, 2, 3, 8)), "k": rng.choice((1, 2, 0)),
